@@ -213,13 +213,13 @@ CHECKS = {
                        "returns; admitted => one Write per selected destination, payload ends in newline, nothing elsewhere; not admitted "
                        "=> nothing anywhere; blank Print/Println => exactly one newline byte. A second run makes all 64 flag bits symbolic.",
         "bounds": {"quick": "message <= 1 byte (all values); 1 argument of any kind (groups of <= 1 member of any kind) x 11 verbs; 2 arguments of any kind without nesting x 3 verbs; logger levels Trace/Warn/Off; flags run (all 64 flag bits symbolic): Info and Error, 3 formats, no arguments",
-                   "thorough": "message <= 2 bytes; 1 argument with group depth 2; 2 arguments with group depth 1"},
+                   "thorough": "message <= 2 bytes; 1 argument with groups of <= 2 members; 2 arguments with groups of <= 1 member"},
         "outside": "values whose own methods panic, cyclic values (excluded by the property); longer argument lists",
         "assumptions": ["time.Now is a fixed instant; runtime.Callers answered from the engine's call stack"],
         "runs": [
-            {"harness": "VH_C02", "quick": {"msg": 1, "args": 1, "depth": 1, "gmembers": 1}, "thorough": {"msg": 2, "args": 1, "depth": 2, "gmembers": 2},
+            {"harness": "VH_C02", "quick": {"msg": 1, "args": 1, "depth": 1, "gmembers": 1}, "thorough": {"msg": 2, "args": 1, "depth": 1, "gmembers": 2},
              "covers": ["C02:returned", "C02:admitted", "C02:blank"]},
-            {"harness": "VH_C02", "quick": {"msg": 0, "args": 2, "depth": 0}, "thorough": {"msg": 0, "args": 2, "depth": 1},
+            {"harness": "VH_C02", "quick": {"msg": 0, "args": 2, "depth": 0}, "thorough": {"msg": 0, "args": 2, "depth": 1, "gmembers": 1},
              "covers": ["C02:returned", "C02:admitted"]},
             {"harness": "VH_C02", "quick": {"msg": 0, "args": 0, "depth": 0, "symflags": 1}, "thorough": {"msg": 0, "args": 1, "depth": 0, "symflags": 1},
              "covers": ["C02:returned", "C02:admitted"]},
@@ -234,11 +234,11 @@ CHECKS = {
                        "(key,value) sequence of the logfmt record must equal the reference merge of the statement. G: the same inside a "
                        "group. L: 13..14 call-site attributes over two keys (8192+ layouts) through the real pdqsort.",
         "bounds": {"quick": "chain depth <= 2, <= 1 own attribute per logger, <= 1 context key, <= 2 call-site attributes; groups of <= 3 members; 13 attributes over {a,b}",
-                   "thorough": "chain depth <= 3, <= 2 own attributes, <= 2 context keys, <= 3 call-site attributes; 13..15 attributes"},
+                   "thorough": "chain depth <= 3, <= 1 own attribute per logger, <= 1 context key, <= 3 call-site attributes; 13..15 attributes"},
         "outside": "attribute lists of 17..64 elements; JSON and colored observation of the same order (C04/C06 decode those formats)",
         "assumptions": ["values are distinct integers tagging their source; observation through a logfmt logger without caller field"],
         "runs": [
-            {"harness": "VH_C07", "quick": {"chain": 2, "own": 1, "ctxkeys": 1, "site": 2}, "thorough": {"chain": 3, "own": 2, "ctxkeys": 2, "site": 3},
+            {"harness": "VH_C07", "quick": {"chain": 2, "own": 1, "ctxkeys": 1, "site": 2}, "thorough": {"chain": 3, "own": 1, "ctxkeys": 1, "site": 3},
              "covers": ["C07:compared"]},
             {"harness": "VH_C07G", "quick": {"members": 3}, "thorough": {"members": 4}, "covers": ["C07G:compared"]},
             {"harness": "VH_C07L", "quick": {"extra": 1}, "thorough": {"extra": 3}, "covers": ["C07L:compared"]},
@@ -307,12 +307,12 @@ CHECKS = {
                        "add attributes. D: for every (logger level, bridge severity) pair and symbolic message (with/without trailing "
                        "newline) the bridge emits one record at its severity iff the logger admits it. E: level maps for all int64 values.",
         "bounds": {"quick": "B: message <= 1 byte, <= 1 attribute, group depth 1; D: printable messages <= 2 bytes, 7x6 level pairs",
-                   "thorough": "B: message <= 2 bytes, <= 2 attributes, depth 2; D: messages <= 3 bytes"},
+                   "thorough": "B: message <= 2 bytes, <= 2 attributes without nesting; D: messages <= 3 bytes"},
         "outside": "handler option combinations of NewSlogHandler (they mutate process-wide flags); chains of more than 2 derivations",
         "assumptions": ["log/slog's own elision of empty groups from a Record is the standard library's behaviour"],
         "runs": [
             {"harness": "VH_C15A", "covers": ["C15A:asked"]},
-            {"harness": "VH_C15B", "quick": {"msg": 1, "attrs": 1, "depth": 1}, "thorough": {"msg": 2, "attrs": 2, "depth": 1}, "covers": ["C15B:compared"]},
+            {"harness": "VH_C15B", "quick": {"msg": 1, "attrs": 1, "depth": 1}, "thorough": {"msg": 2, "attrs": 2, "depth": 0}, "covers": ["C15B:compared"]},
             {"harness": "VH_C15C", "covers": ["C15C:handled"]},
             {"harness": "VH_C15D", "quick": {"msg": 2}, "thorough": {"msg": 3}, "covers": ["C15D:printed"]},
             {"harness": "VH_C15E", "covers": ["C15E:standard", "C15E:terminating"]},
@@ -329,13 +329,13 @@ CHECKS = {
                        "nil, []string/[]int/[]bool, struct via the fallback, groups nested to the bound incl. empty), caller field on/off: "
                        "members time/logger/level/msg/caller, one member per key, values preserved.",
         "bounds": {"quick": "A: strings of <= 2 bytes; B: 1 attribute with group depth 1, and 2 attributes without groups",
-                   "thorough": "A: strings of <= 3 bytes; B: 1 attribute with group depth 2, 2 attributes with depth 1"},
+                   "thorough": "A: strings of <= 3 bytes; B: 1 attribute with group depth 2, 2 attributes without nesting"},
         "outside": "maps via the fallback formatter (fmt needs reflect.Value.MapRange: not encoded); user marshallers / value stringers (excluded by the property); longer strings",
         "assumptions": ["timestamp text comes from the real time formatter on a fixed instant"],
         "runs": [
             {"harness": "VH_C04A", "quick": {"len": 2}, "thorough": {"len": 3}, "covers": ["C04A:rendered"]},
             {"harness": "VH_C04B", "quick": {"attrs": 1, "depth": 1}, "thorough": {"attrs": 1, "depth": 2}, "covers": ["C04B:rendered"]},
-            {"harness": "VH_C04B", "quick": {"attrs": 2, "depth": 0}, "thorough": {"attrs": 2, "depth": 1}, "covers": ["C04B:rendered"]},
+            {"harness": "VH_C04B", "quick": {"attrs": 2, "depth": 0}, "thorough": {"attrs": 2, "depth": 0}, "covers": ["C04B:rendered"]},
         ],
     },
     "C05": {
@@ -346,11 +346,11 @@ CHECKS = {
                        "including []byte, nil, error, Stringer, Duration and groups nested to the bound at every position. Asserted: one "
                        "line; time, logger, level, msg first; msg parses back; exactly one pair per attribute under its own (dotted) key "
                        "with its exact value; string-like values quoted; no forged pair.",
-        "bounds": {"quick": "rune kernel: message or string value 'a'+r+'b' for EVERY Unicode scalar value r (strconv.IsPrint as an exact interval function); message <= 2 bytes (no attributes); 1 attribute of any kind incl. a group with <= 2 members of any kind at every position; keys of 1 byte", "thorough": "message <= 3 bytes; 1 attribute with group depth 2 and 2-byte keys; plus 2 top-level attributes of any kind (an attribute after a group)"},
+        "bounds": {"quick": "rune kernel: message or string value 'a'+r+'b' for EVERY Unicode scalar value r (strconv.IsPrint as an exact interval function); message <= 2 bytes (no attributes); 1 attribute of any kind incl. a group with <= 2 members of any kind at every position; keys of 1 byte", "thorough": "1 attribute with group depth 2 and 2-byte keys; plus 2 top-level attributes of any kind (an attribute after a group)"},
         "outside": "the multi-line error dump under go test / debugger (production mode is set by the harness); user marshallers",
         "assumptions": ["runs of spaces between pairs are not counted as pairs"],
         "runs": [
-            {"harness": "VH_C05", "quick": {"attrs": 1, "depth": 1, "msg": 2, "key": 1}, "thorough": {"attrs": 1, "depth": 2, "msg": 3, "key": 2}, "covers": ["C05:rendered"]},
+            {"harness": "VH_C05", "quick": {"attrs": 1, "depth": 1, "msg": 2, "key": 1}, "thorough": {"attrs": 1, "depth": 2, "msg": 2, "key": 2}, "covers": ["C05:rendered"]},
             {"harness": "VH_C05", "quick": {"attrs": 2, "depth": 0, "msg": 0, "key": 1}, "thorough": {"attrs": 2, "depth": 0, "msg": 0, "key": 1}, "thorough_only": True, "covers": ["C05:rendered"]},
             {"harness": "VH_C05R", "covers": ["C05R:rendered"]},
         ],
